@@ -284,7 +284,7 @@ class C12Dst(DstWorld):
 def configs(tier):
     src, dst = [], []
     L = 2
-    for size, mode, closure, cks in itertools.product((0, L - 1, 2 * L + 1), ("unack", "ack"), (False, True), ("crc32", "mod")):
+    for size, mode, closure, cks in itertools.product((0, L - 1, 2 * L, 2 * L + 1), ("unack", "ack"), (False, True), ("crc32", "mod")):
         if mode == "ack" and closure:
             continue
         src.append(dict(size=size, seg=L, mode=mode, closure=closure, cks=cks, ack_limit=2))
